@@ -2,8 +2,9 @@
 import os
 import copy
 
-from vlib import flow, lean, repo
+from vlib import flow, lean, repo, stream
 from vlib.common import fresh_scratch, log
+from vlib.common import run as sh
 
 from . import lmgen
 from . import C01_lmq as lmq
@@ -45,21 +46,79 @@ def forced_classes(tier):
     (all basis orders x chain lengths) and high fan-out models for each -a value"""
     f = [{"kind": "corpus", "chains": True, "order": 6}, {"kind": "pruned", "chains": True, "order": 6},
          {"kind": "corpus", "chains": True, "order": 5}, {"kind": "pruned", "chains": True, "order": 5},
-         {"kind": "random", "chains": True, "order": 6}, {"kind": "corpus", "chains": True, "order": 4}]
+         {"kind": "random", "chains": True, "order": 6}, {"kind": "corpus", "chains": True, "order": 4},
+         {"kind": "corpus", "shared": True, "order": 4}, {"kind": "pruned", "shared": True, "order": 5},
+         {"kind": "corpus", "shared": True, "order": 6}, {"kind": "random", "shared": True, "order": 4},
+         {"kind": "corpus", "unk": "absent", "order": 3}, {"kind": "pruned", "unk": "absent", "order": 5},
+         {"kind": "corpus", "unk": "absent", "order": 2},
+         {"kind": "corpus", "unk": "absent", "unk_in_ngrams": True, "order": 3}]
     abits = [1, 2, 3, 4, 6, 9, 22, 25, 64, 255]
     f += [{"kind": "fanout", "abits": a} for a in (abits if tier != "quick" else abits[1:10:2])]
     return f
 
 
+BIN_TYPES = {"probing": ("P", ["probing"]), "trie": ("T", ["trie"]), "trie-a": ("A", ["-a", "22", "trie"]),
+             "trie-q": ("Q", ["-q", "8", "-b", "8", "trie"])}
+
+
+def binary_round_trip(ctx, case, path, ops, model_lines, hexe, bb, work, ci, want, tag):
+    """"model read from ARPA or from its binary file": build_binary with both write methods, RELOAD the binary and compare
+    with the L0 oracle (and the model's structure) exactly like the ARPA-loaded classes.  Models without <unk> get every
+    (type, write method) combination, the others one sampled combination."""
+    found = False
+    combos = [(t, w) for t in ("probing", "trie") for w in ("after", "mmap")]
+    if case.meta["unk"] != "absent":
+        combos = [(ctx.rng.choice(sorted(BIN_TYPES)), ctx.rng.choice(["after", "mmap"]))] if ctx.rng.random() < 0.35 else []
+    for typ, wm in combos:
+        cls, targs = BIN_TYPES[typ]
+        out = os.path.join(work, "c%d.%s.%s.bin" % (ci, typ, wm))
+        cmd = [bb, "-s", "-i", "-w", wm, "-p", str(max(case.mult, 1.5))] + targs + [path, out]
+        rc, so, se = sh(cmd, timeout=120)
+        ctx.hist("lm.binary", "%s/%s/unk=%s" % (typ, wm, case.meta["unk"] != "absent"))
+        if rc != 0:
+            if cls == "P" and "probing" in se.lower():
+                ctx.hist("lm.binary_probing_size", True)
+                continue
+            ctx.violation("%s: build_binary failed (rc=%s) on a generated model" % (tag, rc), {"stream": tag, "cmd": cmd,
+                          "stderr": se[-1200:], "arpa": case.arpa.decode("utf-8", "replace")})
+            found = True
+            continue
+        opsb = ["bin %s %s" % (out, cls)] + ops[1:]
+        rcb, ob, eb = stream.run_lines(hexe, opsb, 300)
+        try:
+            os.unlink(out)
+        except OSError:
+            pass
+        if rcb != 0:
+            ctx.violation("%s: harness died on a binary file" % tag, {"stream": tag, "cmd": cmd, "stderr": eb[-1200:]})
+            found = True
+            continue
+        ob[0] = ob[0].replace("bin ", "arpa ", 1)
+        probs, st = lmq.compare(case, ob, model_lines, classes=cls, want=want)
+        probs = [p for p in probs if not p.get("known_key")]
+        ctx.count((tag, "bin", typ, wm, case.arpa), nontrivial=True, n=max(1, st["words"]))
+        if probs:
+            p = probs[0]
+            ctx.violation("%s: %s reloaded from its binary file (%s, -w %s) disagrees (%s)" % (tag, lmq.NAMES[cls], typ, wm, p["kind"]),
+                          {"stream": tag, "first_problem": p, "n_problems": len(probs), "cmd": cmd,
+                           "arpa": case.arpa.decode("utf-8", "replace"), "queries": case.queries, "meta": case.meta})
+            found = True
+    return found
+
+
 def lm_stream(ctx, hexe, dexe, n_cases, size, want=("oracle", "struct", "spec"), tag="lm-query"):
     work = fresh_scratch("c01_%s_%d" % (ctx.pid, os.getpid()))
     found = False
+    okb, bdir, _ = repo.build("tools")
+    bb = os.path.join(bdir, "bin", "build_binary") if okb else None
     forces = forced_classes(ctx.tier)
     for ci in range(n_cases):
         force = forces[ci] if ci < len(forces) else ({"kind": "fanout"} if ctx.rng.random() < 0.03 else None)
         case = lmgen.gen_case(ctx.rng, size=size, force=force)
         for (b, L) in getattr(case, "chains", []):
             ctx.hist("lm.blankchain.order%d" % case.meta["order"], "basis=%d,len=%d" % (b, L))
+        for (sl, lv, nh) in getattr(case, "shared", []):
+            ctx.hist("lm.sharedblanks", "suffix=%d,levels=%d,heads=%d" % (sl, lv, nh))
         if case.meta["kind"] == "fanout":
             ctx.hist("lm.fanout.abits", case.abits)
             ctx.hist("lm.fanout.buckets_spanned_min", case.meta["buckets_spanned_min"])
@@ -98,6 +157,8 @@ def lm_stream(ctx, hexe, dexe, n_cases, size, want=("oracle", "struct", "spec"),
         if ci < 2:
             ctx.sample({"stream": tag, "meta": case.meta, "arpa_head": case.arpa.decode("utf-8", "replace")[:300],
                         "query": case.queries[0], "impl": o1[1][:300] if len(o1) > 1 else None})
+        if bb and os.path.exists(bb) and not st.get("skipped"):
+            found = binary_round_trip(ctx, case, path, ops, o2, hexe, bb, work, ci, want, tag) or found
         known = [p for p in probs if p.get("known_key")]
         probs = [p for p in probs if not p.get("known_key")]
         for p in known[:1]:
